@@ -10,13 +10,20 @@ namespace GV.Drv.C15
 open GV.Line GV.Model.Shutdown
 
 def calls : List String := ["ltm.has", "ltm.next", "ltm.sizes", "ltm.acq", "lsq.acq", "lsq.query", "lts.submit",
-  "ps.get", "bf.get", "bf.range", "cs.sync", "cs.tip"]
+  "ps.get", "bf.get", "bf.range", "cs.sync", "cs.tip", "txs.ids", "txs.txs", "bf.getstop", "cs.syncstop"]
 
-def events (script : String) : Option (List PeerEv) :=
+/-- calls whose blocking part is the protocol client's own Stop() after a correctly answered request -/
+def stopCalls : List String := ["bf.getstop", "cs.syncstop"]
+
+def events (call script : String) : Option (List PeerEv) :=
   if script = "ok" then some [.reply 0]
   else if script = "extra" then some [.reply 0, .reply 0]
+  else if script = "flood" then some [.reply 0, .flood]
   else if script = "wrong" then some [.reply 1]
   else if script = "silent" ∨ script = "close" then some []
+  -- the reply without its last message: nothing the caller waits for — except GetBlockRange,
+  -- which returns as soon as the batch has started
+  else if script = "mid" then (if call = "bf.range" then some [.reply 0] else some [])
   else if script = "garbage" ∨ script = "trunc" ∨ script = "unknown" then some [.junk]
   else none
 
@@ -24,9 +31,16 @@ def handle (line : String) : Out :=
   match tokens line with
   | ["adv", call, script] =>
     if !(calls.contains call) then badOp else
-    match events script with
+    match events call script with
     | none => badOp
     | some evs =>
+      if stopCalls.contains call then
+        -- the request was answered before the script; then the script; then Stop()
+        let evs' := PeerEv.reply 0 :: (evs.filter (· != PeerEv.reply 0))
+        let ret := if stopReturns fixed 0 evs' then "ok" else "HANG"
+        let model := s!"ret={ret} close=ok errchan=closed leak=0"
+        { model, spec := "ret=ok close=ok errchan=closed leak=0||ret=err close=ok errchan=closed leak=0" }
+      else
       let ret := match outcome fixed 0 evs with
         | some true => "ok" | some false => "err" | none => "HANG"
       let leak := if leaks fixed 0 evs then "1" else "0"
